@@ -97,6 +97,7 @@ fn scripts(case: &Value) -> Value {
                 msg.push_str(&s.to_string());
                 src = s.source();
             }
+            msg.push_str(&format!(" [{:?}]", e.kind()));
             return json!({ "config_error": msg });
         }
     };
